@@ -14,9 +14,14 @@ data; sequential and Blelloch scans return the global scan.  What is proved here
 
 * K1 `treeReduce_eq_fold` (in `Lemmas/ArrayReduce.lean`) and `split_every_irrelevant`;
 * `*_eq_numpy` for sum, prod, any, all, min, max, mean-as-(total, n) — exact integer algebra;
-* the arg-reduction merge is a semigroup (`hom_argCombine`), so tie-breaking does not depend on the tree.
+* the arg-reduction merge is a semigroup (`hom_argCombine`), so tie-breaking does not depend on the tree;
+  `argmin/argmax_eq_numpy_all` (first flat index, empty blocks included), `topk_eq_sort_take`;
+* several axes at once: `gridReduce_eq_fold` (commutative monoid) and its instances `sum/prod/any/all/mean_nd_eq_numpy`;
+  `min_nd_eq_numpy` / `max_nd_eq_numpy` via `gridReduce_mapGrid` (the grid tree commutes with a map of the partials
+  along which combine/aggregate are natural: `Option Int` with `omerge` ↪ dask's 0/1-element partial arrays);
+* K2: sequential and Blelloch scans (`cumsum/cumprod_*_eq_numpy`, `blelloch_schedule_ok` for every `n`).
 Not proved (validated by the correspondence check): float round-off, var/std/moment, nan-variants,
-multi-axis value equality, median/quantile glue.
+arg-reductions over several axes, median/quantile glue.
 -/
 namespace Dask.C22
 open Dask.ArrayReduce
@@ -590,6 +595,183 @@ theorem nd_tree_eq_fold {β : Type} {op : β → β → β} {e : β} (hM : IsCom
 /-- non-vacuity: a 3 × 2 grid of blocks, `split_every = (2, 2)`, two levels -/
 example : AxesOk 2 [2, 2] [3, 2] := by
   unfold AxesOk; refine List.Forall₂.cons ⟨by decide, by decide, by decide⟩ (List.Forall₂.cons ⟨by decide, by decide, by decide⟩ List.Forall₂.nil)
+
+
+/-! ## n-d mean / min / max: transport of the grid tree along a map of partials -/
+section transport
+variable {β β' γ γ' : Type}
+
+def mapGrid (φ : β' → β) (g : Grid β') : Grid β := g.map fun p => (p.1, φ p.2)
+
+theorem get?_mapGrid (φ : β' → β) (g : Grid β') (k : List Nat) :
+    (mapGrid φ g).get? k = (g.get? k).map φ := by
+  unfold Grid.get? mapGrid
+  rw [← List.map_reverse, List.find?_map]
+  simp only [Function.comp_def, Option.map_map]
+
+theorem mapM_get?_mapGrid (φ : β' → β) (g : Grid β') (ins : List (List Nat)) :
+    ins.mapM (mapGrid φ g).get? = (ins.mapM g.get?).map (List.map φ) := by
+  induction ins with
+  | nil => rfl
+  | cons k ks ih =>
+    simp only [List.mapM_cons, get?_mapGrid, ih]
+    cases g.get? k <;> simp
+    cases ks.mapM g.get? <;> simp
+
+theorem mapM_natural {X Y Y' : Type} (F : X → Option Y) (F' : X → Option Y') (ψ : Y' → Y)
+    (h : ∀ x, F x = (F' x).map ψ) (xs : List X) : xs.mapM F = (xs.mapM F').map (List.map ψ) := by
+  induction xs with
+  | nil => rfl
+  | cons x xs ih =>
+    simp only [List.mapM_cons, h x, ih]
+    cases F' x <;> simp
+    cases xs.mapM F' <;> simp
+
+theorem roundEval_mapGrid (φ : β' → β) (ψ : γ' → γ) (f : List β → γ) (f' : List β' → γ')
+    (hf : ∀ xs, f (xs.map φ) = ψ (f' xs)) (plan : List (List Nat × List (List Nat))) (g : Grid β') :
+    roundEval f plan (mapGrid φ g) = (roundEval f' plan g).map (mapGrid ψ) := by
+  unfold roundEval mapGrid
+  apply mapM_natural
+  intro p
+  obtain ⟨k, ins⟩ := p
+  show ((ins.mapM (mapGrid φ g).get?).bind fun vs => some (k, f vs)) = ((ins.mapM g.get?).bind fun vs => some (k, f' vs)).map _
+  rw [mapM_get?_mapGrid]
+  cases ins.mapM g.get? with
+  | none => rfl
+  | some vs => simp [hf]
+
+/-- the grid tree commutes with a map `φ` of the partials along which `combine` and `aggregate` are natural -/
+theorem gridReduce_mapGrid (φ : β' → β) (ψ : γ' → γ) (comb : List β → β) (agg : List β → γ)
+    (comb' : List β' → β') (agg' : List β' → γ')
+    (hc : ∀ xs, comb (xs.map φ) = φ (comb' xs)) (ha : ∀ xs, agg (xs.map φ) = ψ (agg' xs))
+    (split : List (Option Nat)) (kd : Bool) :
+    ∀ (d : Nat) (nb : List Nat) (g : Grid β'),
+      gridReduce comb agg nb split kd d (mapGrid φ g) = (gridReduce comb' agg' nb split kd d g).map (mapGrid ψ) := by
+  intro d
+  induction d with
+  | zero => intro nb g; rfl
+  | succ d ih =>
+    intro nb g
+    cases d with
+    | zero =>
+      show roundEval agg _ _ = (roundEval agg' _ _).map _
+      exact roundEval_mapGrid φ ψ agg agg' ha _ g
+    | succ d =>
+      rw [gridReduce, gridReduce]
+      case x_2 => exact Nat.succ_ne_zero d
+      case x_2 => exact Nat.succ_ne_zero d
+      simp only [Option.bind_eq_bind]
+      rw [roundEval_mapGrid φ φ comb comb' hc]
+      cases roundEval comb' (roundPlan nb split true) g with
+      | none => rfl
+      | some g' =>
+        simp only [Option.map_some, Option.bind_some]
+        exact ih _ g'
+
+theorem mkGrid_map (φ : β' → β) (nb : List Nat) (vs : List β') :
+    mkGrid nb (vs.map φ) = mapGrid φ (mkGrid nb vs) := by
+  unfold mkGrid mapGrid
+  rw [List.zip_map_right]
+  simp [Prod.map]
+
+end transport
+
+/-! ### mean -/
+
+def padd (a b : Int × Int) : Int × Int := (a.1 + b.1, a.2 + b.2)
+
+theorem padd_comm : IsCommMonoid padd (0, 0) :=
+  ⟨⟨fun a b c => by simp [padd, Int.add_assoc], fun a => by simp [padd], fun a => by simp [padd]⟩,
+   fun a b => by simp [padd, Int.add_comm]⟩
+
+theorem mean_combine_eq (ps : List (Int × Int)) :
+    (isum (ps.map (·.1)), isum (ps.map (·.2))) = ps.foldr padd (0, 0) := by
+  induction ps with
+  | nil => rfl
+  | cons p ps ih =>
+    simp only [List.map_cons, List.foldr_cons, ← ih, padd]
+    rfl
+
+/-- **mean over several axes**: the n-d tree returns `(Σ all data, number of elements)` — NumPy's mean after the
+    final division — for every block grid, per-axis `split_every` and valid depth. -/
+theorem mean_nd_eq_numpy (d : Nat) (ks nb : List Nat) (blocks : List (List Int)) (h : AxesOk (d + 1) ks nb)
+    (hl : blocks.length = (cartesian (nb.map List.range)).length) :
+    redMean.run nb (ks.map some) false (d + 1) blocks
+      = some [([], (isum blocks.flatten, (blocks.flatten.length : Int)))] := by
+  unfold Red.run
+  show ((blocks.mapM fun b => some (isum b, (b.length : Int))).bind _) = _
+  rw [mapM_some]
+  simp only [Option.bind_some]
+  have hcomb : redMean.combine = fun xs => xs.foldr padd (0, 0) := by
+    funext ps; exact mean_combine_eq ps
+  have hagg : redMean.aggregate = fun xs => xs.foldr padd (0, 0) := by
+    funext ps; exact mean_combine_eq ps
+  rw [hcomb, hagg, gridReduce_eq_fold padd_comm d ks nb _ h (by simpa using hl), ← mean_combine_eq]
+  simp only [List.map_map, Function.comp_def]
+  have h1 := isum_flatten blocks
+  have h2 := isum_lengths blocks
+  rw [h1]
+  exact congrArg (fun v => some [([], (isum blocks.flatten, v))]) h2
+
+/-! ### min / max -/
+
+theorem omerge_comm {α : Type} (op : α → α → α) (assoc : ∀ a b c, op (op a b) c = op a (op b c))
+    (comm : ∀ a b, op a b = op b a) : IsCommMonoid (omerge op) none :=
+  ⟨⟨fun a b c => by cases a <;> cases b <;> cases c <;> simp [omerge, assoc],
+    fun a => by cases a <;> rfl, fun a => by cases a <;> rfl⟩,
+   fun a b => by cases a <;> cases b <;> simp [omerge, comm]⟩
+
+theorem optFold_toLists {α : Type} (op : α → α → α) (assoc : ∀ a b c, op (op a b) c = op a (op b c))
+    (xs : List (Option α)) : optFold op (xs.map Option.toList).flatten = xs.foldr (omerge op) none := by
+  induction xs with
+  | nil => rfl
+  | cons x xs ih =>
+    simp only [List.map_cons, List.flatten_cons, List.foldr_cons]
+    rw [optFold_append op assoc, ih]
+    cases x <;> simp [optFold, Option.toList]
+
+theorem minmax_nd {op : Int → Int → Int} (assoc : ∀ a b c, op (op a b) c = op a (op b c)) (comm : ∀ a b, op a b = op b a)
+    (d : Nat) (ks nb : List Nat) (blocks : List (List Int)) (h : AxesOk (d + 1) ks nb)
+    (hl : blocks.length = (cartesian (nb.map List.range)).length) :
+    gridReduce (fun ps : List (List Int) => (optFold op ps.flatten).toList) (fun ps => optFold op ps.flatten)
+        nb (ks.map some) false (d + 1) (mkGrid nb (blocks.map fun b => (optFold op b).toList))
+      = some [([], optFold op blocks.flatten)] := by
+  have e : (blocks.map fun b => (optFold op b).toList) = (blocks.map (optFold op)).map Option.toList := by
+    simp [List.map_map, Function.comp_def]
+  rw [e, mkGrid_map]
+  rw [gridReduce_mapGrid Option.toList id _ _ (fun xs => xs.foldr (omerge op) none) (fun xs => xs.foldr (omerge op) none)
+    (fun xs => by simp only [optFold_toLists op assoc]) (fun xs => by simp only [optFold_toLists op assoc, id])]
+  rw [gridReduce_eq_fold (omerge_comm op assoc comm) d ks nb _ h (by simpa using hl)]
+  simp only [Option.map_some, mapGrid, List.map_cons, List.map_nil, id]
+  rw [← optFold_toLists op assoc, ← e, optFold_parts op assoc]
+
+/-- **min over several axes** = NumPy's min of all the data (`none` = NumPy raises on a zero-size array), for every
+    block grid — empty blocks included —, per-axis `split_every` and valid depth. -/
+theorem min_nd_eq_numpy (d : Nat) (ks nb : List Nat) (blocks : List (List Int)) (h : AxesOk (d + 1) ks nb)
+    (hl : blocks.length = (cartesian (nb.map List.range)).length) :
+    redMin.run nb (ks.map some) false (d + 1) blocks = some [([], imin? blocks.flatten)] := by
+  have e : redMin = ⟨fun b => some ((optFold min b).toList), fun ps => (optFold min ps.flatten).toList,
+      fun ps => optFold min ps.flatten⟩ := by
+    simp [redMin, minPart, imin?_eq]
+  rw [e, imin?_eq]
+  unfold Red.run
+  show ((blocks.mapM fun b => some ((optFold min b).toList)).bind _) = _
+  rw [mapM_some]
+  simp only [Option.bind_some]
+  exact minmax_nd (fun a b c => Int.min_assoc a b c) (fun a b => Int.min_comm a b) d ks nb blocks h hl
+
+theorem max_nd_eq_numpy (d : Nat) (ks nb : List Nat) (blocks : List (List Int)) (h : AxesOk (d + 1) ks nb)
+    (hl : blocks.length = (cartesian (nb.map List.range)).length) :
+    redMax.run nb (ks.map some) false (d + 1) blocks = some [([], imax? blocks.flatten)] := by
+  have e : redMax = ⟨fun b => some ((optFold max b).toList), fun ps => (optFold max ps.flatten).toList,
+      fun ps => optFold max ps.flatten⟩ := by
+    simp [redMax, maxPart, imax?_eq]
+  rw [e, imax?_eq]
+  unfold Red.run
+  show ((blocks.mapM fun b => some ((optFold max b).toList)).bind _) = _
+  rw [mapM_some]
+  simp only [Option.bind_some]
+  exact minmax_nd (fun a b c => Int.max_assoc a b c) (fun a b => Int.max_comm a b) d ks nb blocks h hl
 
 /-! ## K2: cumulative reductions -/
 section scans
